@@ -121,41 +121,11 @@ static void vt_ev(int code, int who, char *p, int arg)
 	}
 }
 
-void h_mq(void)
-{
-	VT_LOAD();
-	D = in.depth;
-#ifdef DEPTH
-	__CPROVER_assume(D == DEPTH);
-#endif
-	__CPROVER_assume(D >= 1 && D <= DMAX && in.held0 <= D && in.r0 < D);
-	storage = VT_MALLOC(DMAX * 2);
-	__CPROVER_assume(storage != 0);
-	messageq_init(&mq, storage, D * 2, 2);
-	/* pre-state: held0 messages were claimed, sent and received earlier and are still held by the receiver's client
-	 * (so the queue can be full while claims are in flight); ring position r0 is arbitrary */
-	unsigned pos = in.r0;
-	for (unsigned i = 0; i < DMAX; i++) { st[i] = FREE; owner[i] = -1; }
-	for (unsigned i = 0; i < DMAX; i++) if (i < in.held0) { st[pos] = HELD; pos = (pos + 1) % D; }
-	/* the held ones precede the window: receivep == sendp == r0 + held0 */
-	mq.receivep = (unsigned char)pos; atomic_store(&mq.sendp, pos); atomic_store(&mq.num_free, D - in.held0); atomic_store(&mq.full_flags, 0);
+static struct sender_ctx sc[NS]; static struct receiver_ctx rc;
 
-#ifdef VT_MONITOR
-	vt_monitor_init();
-#endif
-	static struct sender_ctx sc[NS]; static struct receiver_ctx rc;
-	for (int a = 0; a < NS; a++) { sc[a].pc = 0; sc[a].done = 0; sc[a].v_0 = (char *)&mq; sc[a].v_1 = (uint32_t)a; sc[a].v_2 = 1; }
-	rc.pc = 0; rc.done = 0; rc.v_0 = (char *)&mq; rc.v_1 = RECV; rc.v_2 = in.held0 ? 0 : NR;	/* releases follow receives in order: with older messages still held the receiver stays out */
-	for (int a = 0; a < NA; a++) { __CPROVER_assume(in.spur[a] <= 1); spur_left[a] = in.spur[a]; }
-#if DISC == 1
-	for (int a = 0; a < NA; a++) { __CPROVER_assume(in.prio[a] < NA); for (int b = 0; b < a; b++) __CPROVER_assume(in.prio[a] != in.prio[b]); }
-#ifdef RECV_LOWEST
-	__CPROVER_assume(in.prio[RECV] == 0);
-#endif
-#ifdef RECV_HIGHEST
-	__CPROVER_assume(in.prio[RECV] == NA - 1);
-#endif
-#endif
+/* the schedule loop lives in its own function so that its cbmc loop name (run_schedule.0) does not depend on the discipline */
+static void run_schedule(void)
+{
 	bool idle = false;
 	for (unsigned k = 0; k < KSTEPS; k++) {
 		uint8_t who = in.sched[k];
@@ -182,6 +152,43 @@ void h_mq(void)
 		for (int a = 0; a < NS; a++) all_done = all_done && sc[a].done;
 		__CPROVER_assume(all_done);
 	}
+}
+
+void h_mq(void)
+{
+	VT_LOAD();
+	D = in.depth;
+#ifdef DEPTH
+	__CPROVER_assume(D == DEPTH);
+#endif
+	__CPROVER_assume(D >= 1 && D <= DMAX && in.held0 <= D && in.r0 < D);
+	storage = VT_MALLOC(DMAX * 2);
+	__CPROVER_assume(storage != 0);
+	messageq_init(&mq, storage, D * 2, 2);
+	/* pre-state: held0 messages were claimed, sent and received earlier and are still held by the receiver's client
+	 * (so the queue can be full while claims are in flight); ring position r0 is arbitrary */
+	unsigned pos = in.r0;
+	for (unsigned i = 0; i < DMAX; i++) { st[i] = FREE; owner[i] = -1; }
+	for (unsigned i = 0; i < DMAX; i++) if (i < in.held0) { st[pos] = HELD; pos = (pos + 1) % D; }
+	/* the held ones precede the window: receivep == sendp == r0 + held0 */
+	mq.receivep = (unsigned char)pos; atomic_store(&mq.sendp, pos); atomic_store(&mq.num_free, D - in.held0); atomic_store(&mq.full_flags, 0);
+
+#ifdef VT_MONITOR
+	vt_monitor_init();
+#endif
+	for (int a = 0; a < NS; a++) { sc[a].pc = 0; sc[a].done = 0; sc[a].v_0 = (char *)&mq; sc[a].v_1 = (uint32_t)a; sc[a].v_2 = 1; }
+	rc.pc = 0; rc.done = 0; rc.v_0 = (char *)&mq; rc.v_1 = RECV; rc.v_2 = in.held0 ? 0 : NR;	/* releases follow receives in order: with older messages still held the receiver stays out */
+	for (int a = 0; a < NA; a++) { __CPROVER_assume(in.spur[a] <= 1); spur_left[a] = in.spur[a]; }
+#if DISC == 1
+	for (int a = 0; a < NA; a++) { __CPROVER_assume(in.prio[a] < NA); for (int b = 0; b < a; b++) __CPROVER_assume(in.prio[a] != in.prio[b]); }
+#ifdef RECV_LOWEST
+	__CPROVER_assume(in.prio[RECV] == 0);
+#endif
+#ifdef RECV_HIGHEST
+	__CPROVER_assume(in.prio[RECV] == NA - 1);
+#endif
+#endif
+	run_schedule();
 	/* quiescence: every sent message not yet received is received now, in claim order, intact; then the number of
 	 * free buffers is the capacity minus the messages still held */
 	for (unsigned i = 0; i < DMAX; i++) {
